@@ -50,7 +50,14 @@ def p_key(poly):
 
 
 def rat_key(r):
-    return (p_key(r[0]), p_key(r[1]))
+    """Structural key of a rational function, normalised so that the denominator's first monomial (in sorted order)
+    has coefficient 1 - `x / 2` and `x * 0.5` get the same key (used for the arguments of opaque calls)."""
+    num, den = r
+    if den:
+        lead = den[sorted(den)[0]]
+        if lead != 1:
+            num, den = p_scale(num, 1 / lead), p_scale(den, 1 / lead)
+    return (p_key(num), p_key(den))
 
 
 # calls whose value is fully determined by their (normalised) arguments: kept as atoms keyed by those arguments
